@@ -310,6 +310,8 @@ func (rt *RateTotal) clone() *RateTotal {
 // Merge will combine two totals objects into a new one, summing up the values
 // of the categories and rates. The original totals will not be modified.
 // The totals may contain zero amounts if the amounts in the second total are negative.
+// Amounts of different precision are summed at the greater of the two, so nothing
+// is rounded away and the result does not depend on the order of the operands.
 func (t *Total) Merge(t2 *Total) *Total {
 	// Create a new total with the same categories
 	nt := t.Clone()
@@ -330,11 +332,11 @@ func (t *Total) Merge(t2 *Total) *Total {
 		} else {
 			pa := ct.PreciseAmount()
 			catTotal.amount = catTotal.PreciseAmount().MatchPrecision(pa).Add(pa)
-			catTotal.Amount = catTotal.Amount.Add(ct.Amount)
+			catTotal.Amount = catTotal.Amount.MatchPrecision(ct.Amount).Add(ct.Amount)
 			if ct.Surcharge != nil {
 				ns := *ct.Surcharge
 				if catTotal.Surcharge != nil {
-					ns = catTotal.Surcharge.Add(*ct.Surcharge)
+					ns = catTotal.Surcharge.MatchPrecision(*ct.Surcharge).Add(*ct.Surcharge)
 				}
 				catTotal.Surcharge = &ns
 			}
@@ -354,10 +356,10 @@ func (t *Total) Merge(t2 *Total) *Total {
 					catTotal.Rates = append(catTotal.Rates, rateTotal)
 				} else {
 					// Merge the amounts
-					rateTotal.Base = rateTotal.Base.Add(rt.Base)
-					rateTotal.Amount = rateTotal.Amount.Add(rt.Amount)
+					rateTotal.Base = rateTotal.Base.MatchPrecision(rt.Base).Add(rt.Base)
+					rateTotal.Amount = rateTotal.Amount.MatchPrecision(rt.Amount).Add(rt.Amount)
 					if rt.Surcharge != nil {
-						rateTotal.Surcharge.Amount = rateTotal.Surcharge.Amount.Add(rt.Surcharge.Amount)
+						rateTotal.Surcharge.Amount = rateTotal.Surcharge.Amount.MatchPrecision(rt.Surcharge.Amount).Add(rt.Surcharge.Amount)
 					}
 				}
 			}
@@ -367,7 +369,7 @@ func (t *Total) Merge(t2 *Total) *Total {
 	// Merge the sum
 	ps := t2.PreciseSum()
 	nt.sum = nt.PreciseSum().MatchPrecision(ps).Add(ps)
-	nt.Sum = nt.Sum.Add(t2.Sum)
+	nt.Sum = nt.Sum.MatchPrecision(t2.Sum).Add(t2.Sum)
 
 	return nt
 }
